@@ -1,5 +1,6 @@
 import ShexerModel.Model.Emit
 import ShexerModel.Model.Ctor
+import ShexerModel.Spec.Counts
 open Shexer
 
 /-! Line-protocol driver: reads cases from stdin, prints the model's canonical output.
@@ -10,9 +11,19 @@ RUN <TAB> what <TAB> id               what ∈ {shapes, profile, track}
 ```
 -/
 
+structure Query where
+  cls : String
+  inv : Bool
+  prop : String
+  ty : String
+  card : Card
+
 structure DState where
   cfg : Config := {}
   triples : Array Triple := #[]
+  /-- triples that take part in the selection of instances (all but those marked `TX`) -/
+  selTriples : Array Triple := #[]
+  queries : Array Query := #[]
 
 def parseBool (s : String) : Bool := s == "1" || s == "true" || s == "True"
 
@@ -52,10 +63,20 @@ def mkTerm (kind v : String) : Term :=
   | "B" => Term.bnode v
   | _ => Term.lit v
 
+def parseCard (s : String) : Card :=
+  if s == "+" then Card.plus else if s == "*" then Card.star else if s == "?" then Card.opt
+  else Card.exact (((s.drop 1).dropEnd 1).toString.toNat?.getD 0)
+
 def runCase (st : DState) (what id : String) : List String :=
   let g := st.triples.toList
   let body : List String :=
     match what with
+    | "spec" =>
+      let sel := Spec.selectionOf st.cfg st.selTriples.toList
+      st.queries.toList.map fun q =>
+        "A\t" ++ toString (if q.ty == Gen.NONLITERAL_ELEM_TYPE then Spec.countOverNonlit st.cfg sel g q.cls q.inv q.prop q.card
+                           else Spec.countOver st.cfg sel g q.cls q.inv q.prop q.ty q.card) ++ "\t"
+          ++ toString (Spec.classSize sel q.cls)
     | "shapes" => Emit.render (Shexer.run st.cfg g)
     | "track" => (Tracker.track st.cfg g).map fun (k, cls) => "INST\t" ++ k ++ "\t" ++ "|".intercalate cls
     | _ => ["bad-op"]
@@ -113,7 +134,12 @@ def stepLine (st : DState) (line : String) : DState × List String :=
   | "GUARD" :: "shex" :: id :: kvs => (st, ["G\t" ++ id ++ "\t" ++ guardStr (Gen.shex_graph_guard (kvs.foldl setCall {}))])
   | "GUARD" :: "profile" :: id :: kvs => (st, ["G\t" ++ id ++ "\t" ++ guardStr (Gen.profile_graph_guard (kvs.foldl setCall {}))])
   | "CFG" :: kvs => ({ st with cfg := kvs.foldl setCfg st.cfg }, [])
-  | ["T", sk, s, p, ok, o] => ({ st with triples := st.triples.push { s := mkTerm sk s, p := p, o := mkTerm ok o } }, [])
+  | ["T", sk, s, p, ok, o] =>
+    let t : Triple := { s := mkTerm sk s, p := p, o := mkTerm ok o }
+    ({ st with triples := st.triples.push t, selTriples := st.selTriples.push t }, [])
+  | ["TX", sk, s, p, ok, o] => ({ st with triples := st.triples.push { s := mkTerm sk s, p := p, o := mkTerm ok o } }, [])
+  | ["Q", c, inv, p, ty, card] =>
+    ({ st with queries := st.queries.push { cls := c, inv := inv == "I", prop := p, ty := ty, card := parseCard card } }, [])
   | ["RUN", what, id] => ({}, runCase st what id)
   | [""] => (st, [])
   | _ => (st, ["bad-op\t" ++ line])
